@@ -9,13 +9,13 @@ from types import SimpleNamespace
 _CONTRACTS: dict[str, type] = {}
 
 
-def contract(fq: str):
+def contract(fq: str, variant: str | None = None):
     def deco(cls):
-        cls.__target__ = fq
+        cls.__target__ = fq  # (a variant contract targets the same function)
         for k, v in list(vars(cls).items()):
             if callable(v) and not k.startswith("__"):
                 setattr(cls, k, staticmethod(v))
-        _CONTRACTS[fq] = cls
+        _CONTRACTS[fq if variant is None else f"{fq}@{variant}"] = cls
         return cls
     return deco
 
